@@ -190,17 +190,21 @@ def run_case(case, ctx):
             return Outcome(ok=False, why="fix died with signal %d" % -fx.rc)
         status = {}
         statrun = {}
+        statpre = {}
         for t in fx.tag("status"):
             if len(t) >= 4:
                 status[(t[2].decode(), t[3])] = t[1].decode()
                 statrun[(t[2].decode(), t[3])] = (fx.rc, int((fx.summary("error_unrecoverable") or [b"1"])[0]))
+                statpre[(t[2].decode(), t[3])] = pre
         # a fix that stops with a fatal error (e.g. "file disappeared ... rerun the same command" when a file it had
         # indexed as a data source was renamed or cut by fix itself) has not completed: re-run it as the tool asks and
         # judge the completed run, keeping the reports of the aborted ones
         reruns = 0
+        pre_last = pre
         while fx.rc != 0 and not fx.summary("exit") and reruns < 3:
             reruns += 1
             classes.add("fix aborted by a fatal error and re-run")
+            pre_last = w.arr.snap_data()   # what the aborted run left: the state the judged run starts from
             fx = w.cmd("fix", case["fixopts"])
             if fx.timed_out:
                 return Outcome(ok=True, inconclusive=True)
@@ -208,6 +212,7 @@ def run_case(case, ctx):
                 if len(t) >= 4:
                     status[(t[2].decode(), t[3])] = t[1].decode()
                     statrun[(t[2].decode(), t[3])] = (fx.rc, int((fx.summary("error_unrecoverable") or [b"1"])[0]))
+                    statpre[(t[2].decode(), t[3])] = pre_last
         if fx.rc != 0 and not fx.summary("exit"):
             return Outcome(ok=True, classes=sorted(classes | {"fix keeps aborting"}), inconclusive=True)
         post = w.arr.snap_data()
@@ -229,10 +234,15 @@ def run_case(case, ctx):
                 post_bytes = b[1] if b and b[0] == "f" else None
                 if V is not None and pre_bytes != V:
                     damaged_recorded += 1
+                # known-finding signatures look at the state the JUDGED run found (after an aborted run: what that run left)
+                snap_sig = statpre.get((dn, rel), pre_last)[dn]   # the run that reported the file, else the last one
+                # fix renames an existing <name>.unrecoverable (left by an earlier run) back to <name> before it looks at it
+                a_sig = snap_sig.get(rel) or snap_sig.get(rel + b".unrecoverable")
+                pre_sig = a_sig[1] if a_sig and a_sig[0] == "f" else None
                 stt = status.get((dn, rel))
                 if stt == "recovered":
                     if V is not None and post_bytes != V:
-                        sig = classify(w, c, dn, f, V, pre_bytes, post_bytes, a, reruns)
+                        sig = classify(w, c, dn, f, V, pre_sig, post_bytes, a_sig, reruns)
                         if sig:
                             known.extend(sig)
                             continue
@@ -247,7 +257,7 @@ def run_case(case, ctx):
                     if a != b and not (a and b and a[0] == "f" and b[0] == "f" and a[1] == b[1] and a[3] == b[3]):
                         if V is not None and post_bytes == V:
                             continue  # silently repaired to the recorded version (e.g. size fix): fine
-                        sig = classify(w, c, dn, f, V, pre_bytes, post_bytes, a, reruns)
+                        sig = classify(w, c, dn, f, V, pre_sig, post_bytes, a_sig, reruns)
                         if sig:
                             known.extend(sig)
                             continue
